@@ -98,6 +98,9 @@ class Sim:
         self.policy = ('sticky', 4)
         self.pct_points = ()
         self.forced_switch = None  # (task index, step index) for single-switch sweeps
+        self.script = []  # [[task index, steps], ...] for multi-switch sweeps
+        self.script_pos = 0
+        self.script_base = None
         self.trace_prefix = trace_prefix
         self.on_point = None  # fault-injection callback(label) (may raise)
         self.gc_rate = 0  # 1/gc_rate chance of an injected collection at a point (0 = never)
@@ -173,6 +176,18 @@ class Sim:
                 return first
             others = [t for t in runnable if t is not first]
             return others[0] if others else first
+        if kind == 'script':
+            # forced schedule: segments [task index, number of that task's yield points]; afterwards tid order
+            while self.script_pos < len(self.script):
+                tidx, n = self.script[self.script_pos]
+                t = self.tasks[tidx % len(self.tasks)]
+                if self.script_base is None:
+                    self.script_base = t.steps
+                if t.state == 'runnable' and t.steps - self.script_base < n:
+                    return t
+                self.script_pos += 1
+                self.script_base = None
+            return runnable[0]
         # orders: current task first so that value 0 == "do not switch"
         if me is not None and me.state == 'runnable':
             ordered = [me] + [t for t in runnable if t is not me]
